@@ -808,3 +808,171 @@ Proof.
   rewrite (p_out_canon_fix ind iel mll esort G (term_tr tr) Hcan Htr'), !ensure_nl_node, (enl_p_ungroup ind iel mll esort G _ Hcan Htr'), (term_tr_idem tr Htr).
   split; reflexivity.
 Qed.
+
+(* ---------------------------------------------------------------- the document: a second application changes nothing *)
+(* a comment line kept by Deb822::wrap_and_sort: an EMPTY_LINE node of tokens with something else than blanks *)
+Definition cline (c : tree) : bool :=
+  match c with Node EMPTY_LINE ts => forallb is_token ts && comment_line c | _ => false end.
+Definition para_ok (ind : indentation) (c : tree) : bool :=
+  match c with Node PARAGRAPH ps => forallb (pchild_ok ind) ps | _ => false end.
+
+Lemma cline_props ind c : cline c = true -> is_para_node c = false /\ comment_line c = true /\ rchild_ok ind c = true.
+Proof.
+  destruct c as [|k ts]; [discriminate|]. destruct k; try discriminate. cbn [cline]. intros H. apply andb_true_iff in H. destruct H as [H1 H2].
+  split; [reflexivity|]. split; [exact H2|exact H1].
+Qed.
+
+Lemma d_groups_props ind rs : forall cur, forallb (rchild_ok ind) rs = true -> forallb cline cur = true ->
+  (forall g, In g (fst (d_groups rs cur)) -> forallb cline (fst g) = true /\ para_ok ind (snd g) = true) /\
+  forallb cline (snd (d_groups rs cur)) = true.
+Proof.
+  induction rs as [|c r IH]; intros cur H Hcur.
+  - cbn [d_groups fst snd]. split; [intros g []|exact Hcur].
+  - cbn [forallb] in H. apply andb_true_iff in H. destruct H as [Hc Hr]. cbn [d_groups]. destruct (is_para_node c) eqn:Ep.
+    + specialize (IH [] Hr eq_refl). destruct (d_groups r []) as [gs tr]. cbn [fst snd] in *. destruct IH as [IH1 IH2]. split; [|exact IH2].
+      intros g [<-|Hg]; [|apply IH1, Hg]. cbn [fst snd]. split; [exact Hcur|]. destruct c as [|k cs]; [discriminate|]. destruct k; try discriminate. exact Hc.
+    + apply IH; [exact Hr|]. destruct (comment_line c) eqn:Ec; [|exact Hcur]. rewrite forallb_app, Hcur. cbn [forallb].
+      destruct c as [|k ts]; [discriminate|]. destruct k; try discriminate. cbn [cline]. cbn [rchild_ok] in Hc. rewrite Hc, Ec. reflexivity.
+Qed.
+
+Lemma d_groups_clines a : forall X cur, forallb cline a = true -> d_groups (a ++ X) cur = d_groups X (cur ++ a).
+Proof.
+  induction a as [|c r IH]; intros X cur H; [rewrite app_nil_r; reflexivity|]. cbn [forallb] in H. apply andb_true_iff in H. destruct H as [H1 H2].
+  destruct (cline_props FieldNameLength c H1) as (P1 & P2 & _). cbn [app d_groups]. rewrite P1, P2, (IH X _ H2), <- app_assoc. reflexivity.
+Qed.
+
+Definition dgroup_ok (ind : indentation) (g : list tree * tree) : Prop := forallb cline (fst g) = true /\ para_ok ind (snd g) = true.
+
+Lemma para_ok_node ind c : para_ok ind c = true -> is_para_node c = true.
+Proof. destruct c as [|k cs]; [discriminate|]. destruct k; try discriminate. reflexivity. Qed.
+
+Lemma d_groups_emit ind G tr : forall first cur, (forall g, In g G -> dgroup_ok ind g) -> forallb cline tr = true ->
+  d_groups (d_emit first G ++ tr) cur =
+  match G with [] => ([], cur ++ tr) | g :: r => ((cur ++ fst g, snd g) :: r, tr) end.
+Proof.
+  induction G as [|g r IH]; intros first cur HG Htr.
+  - cbn [d_emit app]. pose proof (d_groups_clines tr [] cur Htr) as E. rewrite app_nil_r in E. rewrite E. reflexivity.
+  - destruct (HG g (or_introl eq_refl)) as [H1 H2]. cbn [d_emit]. rewrite <- !app_assoc.
+    assert (E : d_groups ((if first then [] else [blank_line]) ++ fst g ++ (snd g :: d_emit false r) ++ tr) cur
+              = d_groups (fst g ++ (snd g :: d_emit false r) ++ tr) cur) by (destruct first; reflexivity).
+    rewrite E, (d_groups_clines (fst g) _ cur H1). cbn [app d_groups]. rewrite (para_ok_node ind _ H2).
+    rewrite (IH false [] (fun y Hy => HG y (or_intror Hy)) Htr). destruct r as [|g2 r2]; [reflexivity|]. destruct g2; reflexivity.
+Qed.
+
+(* terminating the last comment line *)
+Definition term_lines (tr : list tree) : list tree :=
+  match rev tr with [] => [] | x :: r => rev r ++ [ensure_nl x] end.
+
+Lemma ensure_nl_cline c : cline c = true -> cline (ensure_nl c) = true /\ ensure_nl (ensure_nl c) = ensure_nl c.
+Proof.
+  destruct c as [|k ts]; [discriminate|]. destruct k; try discriminate. cbn [cline]. intros H. apply andb_true_iff in H. destruct H as [H1 H2].
+  rewrite ensure_nl_node. destruct (rev ts) as [|x r] eqn:Er.
+  - assert (ts = []) by (rewrite <- (rev_involutive ts), Er; reflexivity). subst ts. discriminate.
+  - assert (Et : ts = rev r ++ [x]) by (rewrite <- (rev_involutive ts), Er; reflexivity). rewrite Et in *. rewrite enl_snoc.
+    rewrite forallb_app in H1. apply andb_true_iff in H1. destruct H1 as [Ha Hx]. cbn [forallb] in Hx. destruct x as [k s|]; [|discriminate].
+    unfold comment_line in *. cbn [children] in *. rewrite existsb_app in H2.
+    destruct k; cbn [cline]; rewrite ?ensure_nl_node, ?enl_snoc;
+      try (split; [rewrite forallb_app, Ha; unfold comment_line; cbn [children]; rewrite existsb_app; cbn [forallb is_token existsb andb];
+                   try rewrite H2; apply orb_true_iff in H2; destruct H2 as [H2|H2]; rewrite ?H2, ?orb_true_r; try reflexivity; cbn in H2; try discriminate; rewrite ?orb_true_r; reflexivity
+                  |try reflexivity; change (rev r ++ [Tok ?k0 s; Tok NEWLINE [10%N]]) with (rev r ++ [Tok k0 s] ++ [Tok NEWLINE [10%N]]); rewrite app_assoc, enl_snoc, <- app_assoc; reflexivity]).
+Qed.
+
+Lemma term_lines_props tr : forallb cline tr = true ->
+  forallb cline (term_lines tr) = true /\ term_lines (term_lines tr) = term_lines tr /\
+  (tr <> [] -> forall E, ensure_nl_list (E ++ tr) = E ++ term_lines tr).
+Proof.
+  intros H. unfold term_lines at 1 3 4. destruct (rev tr) as [|x r] eqn:Er.
+  - assert (tr = []) by (rewrite <- (rev_involutive tr), Er; reflexivity). subst tr. split; [reflexivity|]. split; [reflexivity|congruence].
+  - assert (Et : tr = rev r ++ [x]) by (rewrite <- (rev_involutive tr), Er; reflexivity).
+    assert (Hx : cline x = true) by (rewrite forallb_forall in H; apply H; apply in_rev; rewrite Er; left; reflexivity).
+    assert (Hr : forallb cline (rev r) = true) by (rewrite Et, forallb_app in H; apply andb_true_iff in H; apply H).
+    destruct (ensure_nl_cline x Hx) as [C1 C2].
+    split; [rewrite forallb_app, Hr; cbn [forallb]; rewrite C1; reflexivity|]. split.
+    + unfold term_lines. rewrite rev_app_distr. cbn [rev app]. rewrite rev_involutive, C2. reflexivity.
+    + intros _ E. unfold term_lines. rewrite Er. rewrite Et at 1. rewrite app_assoc, enl_snoc, <- app_assoc. destruct x as [|k ts]; [discriminate|]. reflexivity.
+Qed.
+
+Definition psort_ok (ind : indentation) (iel : bool) (mll : option N) (psort esort : option (tree -> tree -> comparison)) : Prop :=
+  match psort with
+  | Some p => cmp_consistent p /\
+              (forall a b, para_ok ind a = true -> para_ok ind b = true ->
+                 p (pp_out ind iel mll esort a) (pp_out ind iel mll esort b) = p a b)
+  | None => True
+  end.
+
+Lemma d_emit_snoc G g : forall first, d_emit first (G ++ [g]) =
+  d_emit first G ++ (if first && match G with [] => true | _ => false end then [] else [blank_line]) ++ fst g ++ [snd g].
+Proof.
+  induction G as [|x r IH]; intros first; [destruct first; cbn [d_emit app andb]; rewrite ?app_nil_r; reflexivity|].
+  cbn [app d_emit]. rewrite (IH false). cbn [andb]. rewrite andb_false_r. rewrite <- !app_assoc. reflexivity.
+Qed.
+
+Lemma rchild_ok_emit ind G : forall first : bool, (forall g, In g G -> dgroup_ok ind g) ->
+  forallb (rchild_ok ind) (d_emit first G) = true.
+Proof.
+  induction G as [|g r IH]; intros first HG; [reflexivity|].
+  destruct (HG g (or_introl eq_refl)) as [P1 P2]. cbn [d_emit]. rewrite !forallb_app. cbn [forallb].
+  rewrite (IH false (fun y Hy => HG y (or_intror Hy))), andb_true_r.
+  apply andb_true_iff. split; [destruct first; reflexivity|]. apply andb_true_iff. split.
+  - rewrite forallb_forall in *. intros x Hx. apply (cline_props ind x (P1 x Hx)).
+  - destruct (snd g) as [|k ps]; [discriminate|]. destruct k; try discriminate. exact P2.
+Qed.
+
+Theorem d_out_idem ind iel mll psort esort rs : forallb (rchild_ok ind) rs = true ->
+  esort_ok ind iel mll esort -> psort_ok ind iel mll psort esort ->
+  forallb (rchild_ok ind) (children (d_out ind iel mll psort esort rs)) = true /\
+  d_out ind iel mll psort esort (children (d_out ind iel mll psort esort rs)) = d_out ind iel mll psort esort rs.
+Proof.
+  intros H Hes Hps. destruct (d_groups_props ind rs [] H eq_refl) as [Hg Htr].
+  set (R := d_out ind iel mll psort esort rs). unfold d_out in R.
+  destruct (d_groups rs []) as [gs tr]. cbn [fst snd] in *.
+  set (L := sort_opt (option_map on_snd psort) gs) in *.
+  assert (HL : forall g, In g L -> forallb cline (fst g) = true /\ para_ok ind (snd g) = true)
+    by (intros g Hin; apply Hg; apply (sort_opt_In _ _ _ Hin)).
+  set (G := map (fun g => (fst g, pp_out ind iel mll esort (snd g))) L) in *.
+  assert (HG : forall g, In g G -> dgroup_ok ind g /\ pp_out ind iel mll esort (snd g) = snd g /\ ensure_nl (snd g) = snd g).
+  { intros g' Hg'. apply in_map_iff in Hg'. destruct Hg' as (g & <- & Hin). destruct (HL g Hin) as (H1 & H2). cbn [fst snd].
+    destruct (snd g) as [|k ps] eqn:Esg; [discriminate|]. destruct k; try discriminate. cbn [para_ok] in H2.
+    destruct (pp_out_idem ind iel mll esort ps H2 Hes) as (A & B & C).
+    split; [split; [exact H1|]|split; [exact B|exact C]].
+    unfold pp_out at 1. rewrite ensure_nl_node. cbn [para_ok]. unfold pp_out in A. rewrite ensure_nl_node in A. exact A. }
+  destruct (term_lines_props tr Htr) as (T1 & T2 & T3).
+  (* the children of the result *)
+  assert (ER : children R = d_emit true G ++ term_lines tr).
+  { unfold R. rewrite ensure_nl_node. cbn [children]. destruct tr as [|t0 tr0].
+    - cbn [term_lines rev]. rewrite !app_nil_r. destruct G as [|g0 G0] eqn:EG; [reflexivity|].
+      assert (Hne : g0 :: G0 <> []) by discriminate. destruct (exists_last Hne) as (G' & g & E). rewrite E in *.
+      rewrite d_emit_snoc, !app_assoc, enl_snoc.
+      assert (Hin : In g (G' ++ [g])) by (apply in_or_app; right; left; reflexivity).
+      destruct (HG g Hin) as ([_ Hp] & _ & Hen). destruct (snd g) as [|k ps] eqn:Esg; [discriminate|]. rewrite Hen. reflexivity.
+    - apply T3. discriminate. }
+  assert (Hok : forallb (rchild_ok ind) (d_emit true G ++ term_lines tr) = true).
+  { rewrite forallb_app. apply andb_true_iff. split.
+    - apply rchild_ok_emit. intros g Hg'. apply (HG g Hg').
+    - rewrite forallb_forall in *. intros x Hx. apply (cline_props ind x (T1 x Hx)). }
+  rewrite ER. split; [exact Hok|].
+  unfold d_out. rewrite (d_groups_emit ind G (term_lines tr) true [] (fun g Hg' => proj1 (HG g Hg')) T1).
+  assert (E : (match G with [] => ([], [] ++ term_lines tr) | g :: r => (([] ++ fst g, snd g) :: r, term_lines tr) end) = (G, term_lines tr))
+    by (destruct G as [|g r]; [reflexivity|destruct g; reflexivity]).
+  rewrite E. cbn [fst snd].
+  assert (Hs : sort_opt (option_map on_snd psort) G = G).
+  { apply sort_opt_sorted. destruct psort as [p|]; cbn [option_map]; [|exact I]. destruct Hps as [Hc Hi].
+    assert (HsL : lsorted (on_snd p) L) by (unfold L; cbn [option_map sort_opt]; apply sort_by_lsorted; intros a b Hab; apply Hc; exact Hab).
+    unfold G. clear ER Hok HG E. revert HsL HL. generalize L as l. induction l as [|x r IH]; intros Hs HL'; [exact I|].
+    cbn [lsorted map] in *. destruct Hs as [Hx Hr]. split; [|apply IH; [exact Hr|intros g Hin; apply HL'; right; exact Hin]].
+    destruct r as [|y r']; [exact I|]. cbn [map]. unfold le_cmp, gtb, on_snd in *. cbn [snd].
+    rewrite (Hi (snd x) (snd y)); [exact Hx|apply (HL' x (or_introl eq_refl))|apply (HL' y (or_intror (or_introl eq_refl)))]. }
+  rewrite Hs.
+  assert (Hm : map (fun g => (fst g, pp_out ind iel mll esort (snd g))) G = G).
+  { rewrite <- (map_id G) at 2. apply map_ext_in. intros g Hg'. destruct (HG g Hg') as (_ & B & _). rewrite B. destruct g; reflexivity. }
+  rewrite Hm, ensure_nl_node. f_equal.
+  destruct tr as [|t0 tr0].
+  - cbn [term_lines rev]. rewrite !app_nil_r. rewrite app_nil_r in ER. rewrite <- ER. unfold R. rewrite ensure_nl_node. cbn [children].
+    change (term_lines []) with (@nil tree) in ER. rewrite app_nil_r. cbn [children] in ER. unfold R in ER. rewrite ensure_nl_node in ER. cbn [children] in ER.
+    rewrite app_nil_r in ER. rewrite ER at 1. rewrite ER. reflexivity.
+  - assert (Hne : term_lines (t0 :: tr0) <> []).
+    { unfold term_lines. destruct (rev (t0 :: tr0)) as [|x r] eqn:Er; [|destruct (rev r); discriminate].
+      exfalso. apply (f_equal (@length tree)) in Er. rewrite rev_length in Er. discriminate. }
+    destruct (term_lines_props (term_lines (t0 :: tr0)) T1) as (_ & _ & T3'). rewrite (T3' Hne), T2.
+    unfold R. rewrite ensure_nl_node. cbn [children]. rewrite (T3 ltac:(discriminate)). reflexivity.
+Qed.
